@@ -1,0 +1,89 @@
+//go:build verif
+
+package pos
+
+// Machine-checked contracts for /verif (read as text by the VC generator; no code).
+//
+//@ const MaxW = 2147483647
+//@
+//@ spec tsum(w []Weight, n int) int = ite(n <= 0, 0, tsum(w, n-1) + w[n-1])
+//@ spec wsum(a []bool, w []Weight, n int) int = ite(n <= 0, 0, wsum(a, w, n-1) + ite(a[n-1], w[n-1], 0))
+//@
+//@ lemma wsum_frame(a []bool, w []Weight, n int, i int, v bool) by induction(n)
+//@   requires i >= n
+//@   ensures  wsum(a[i := v], w, n) == wsum(a, w, n)
+//@ lemma wsum_store(a []bool, w []Weight, n int, i int) by induction(n) { use wsum_frame(a, w, n-1, i, true) }
+//@   requires 0 <= i && i < n && !a[i]
+//@   ensures  wsum(a[i := true], w, n) == wsum(a, w, n) + w[i]
+//@ lemma wsum_le(a []bool, w []Weight, n int) by induction(n)
+//@   ensures  0 <= wsum(a, w, n) && wsum(a, w, n) <= tsum(w, n)
+//@ lemma wsum_zero(a []bool, w []Weight, n int) by induction(n)
+//@   requires forall(i, 0, n, !a[i])
+//@   ensures  wsum(a, w, n) == 0
+//@
+//@ lemma quorum_whole(T int)
+//@   requires T >= 1
+//@   ensures  T >= T*2/3 + 1
+//@ lemma quorum_two_thirds(T int, S int)
+//@   requires 0 <= S && 3*S <= 2*T
+//@   ensures  S < T*2/3 + 1
+//@ lemma quorum_intersect(T int, A int, B int)
+//@   requires T >= 1 && A >= T*2/3 + 1 && B >= T*2/3 + 1 && A <= T && B <= T
+//@   ensures  3*(A + B - T) > T
+//@
+//@ inv Validators valid(vv):
+//@   vv != nil && len(vv.cache.weights) == len(vv.values) && len(vv.cache.ids) == len(vv.values) &&
+//@   vv.cache.totalWeight == tsum(vv.cache.weights, len(vv.cache.weights)) &&
+//@   vv.cache.totalWeight <= MaxW && len(vv.values) <= MaxW &&
+//@   forall(id idx.ValidatorID, has(vv.cache.indexes, id) ==> vv.cache.indexes[id] < len(vv.values))
+//@
+//@ func (*Validators).TotalWeight
+//@   requires vv != nil
+//@   ensures  result == vv.cache.totalWeight
+//@ func (*Validators).Quorum
+//@   requires valid(vv)
+//@   ensures  result == vv.cache.totalWeight*2/3 + 1
+//@ func (*Validators).Len
+//@   requires vv != nil && len(vv.values) <= 4294967295
+//@   ensures  result == len(vv.values)
+//@ func (*Validators).GetWeightByIdx
+//@   requires vv != nil && 0 <= i && i < len(vv.cache.weights)
+//@   ensures  result == vv.cache.weights[i]
+//@ func (*Validators).GetIdx
+//@   requires vv != nil
+//@   ensures  result == vv.cache.indexes[id]
+//@
+//@ inv WeightCounter cinv(s):
+//@   s != nil && valid(s.validators) && len(s.already) == len(s.validators.values) &&
+//@   s.quorum == s.validators.cache.totalWeight*2/3 + 1 &&
+//@   s.sum == wsum(s.already, s.validators.cache.weights, len(s.already))
+//@
+//@ func (*WeightCounter).CountByIdx
+//@   requires cinv(s) && 0 <= validatorIdx && validatorIdx < len(s.already)
+//@   modifies s.sum, s.already[validatorIdx]
+//@   ensures  old(s.already[validatorIdx]) ==> !result && s.sum == old(s.sum)
+//@   ensures  !old(s.already[validatorIdx]) ==> result && s.already[validatorIdx] && s.sum == old(s.sum) + s.validators.cache.weights[validatorIdx]
+//@   ensures  cinv(s)
+//@   hint use wsum_store(old(s.already), s.validators.cache.weights, len(s.already), validatorIdx); use wsum_le(s.already, s.validators.cache.weights, len(s.already))
+//@ func (*WeightCounter).HasQuorum
+//@   requires cinv(s)
+//@   ensures  result == (s.sum >= s.quorum)
+//@   ensures  result == (wsum(s.already, s.validators.cache.weights, len(s.already)) >= s.validators.cache.totalWeight*2/3 + 1)
+//@ func (*WeightCounter).Sum
+//@   requires s != nil
+//@   ensures  result == s.sum
+//@ func newWeightCounter
+//@   requires valid(vv)
+//@   ensures  fresh(result) && cinv(result) && result.sum == 0
+//@   ensures  forall(i, 0, len(result.already), !result.already[i])
+//@   hint use wsum_zero(result.already, result.validators.cache.weights, len(result.already))
+//@ func (Validators).NewCounter
+//@   requires valid(vv)
+//@   ensures  fresh(result) && cinv(result) && result.sum == 0
+//@   ensures  forall(i, 0, len(result.already), !result.already[i])
+//@ func (*WeightCounter).Count
+//@   requires cinv(s) && len(s.already) >= 1
+//@   modifies s.sum, s.already[s.validators.cache.indexes[v]]
+//@   ensures  old(s.already[s.validators.cache.indexes[v]]) ==> !result && s.sum == old(s.sum)
+//@   ensures  !old(s.already[s.validators.cache.indexes[v]]) ==> result && s.sum == old(s.sum) + s.validators.cache.weights[s.validators.cache.indexes[v]]
+//@   ensures  cinv(s)
